@@ -467,8 +467,15 @@ def nonnegDt : Op → Prop
 /-! ### line protocol -/
 open Proto
 
+/-- a number of the scenario text: an integer (units of 1/8 s), optionally preceded by the letter
+that tells the harness which Python type to use for it (`F` fractions.Fraction, `I` int, `B` bool;
+none: float).  The value is all the model needs: it works over exact integers. -/
+def num? (t : String) : Option Int :=
+  if t.startsWith "F" || t.startsWith "I" || t.startsWith "B" then (t.drop 1).toString.toInt?
+  else t.toInt?
+
 def optInt? (t : String) : Option (Option Int) :=
-  if t = "N" then some none else t.toInt?.map some
+  if t = "N" then some none else (num? t).map some
 
 def parseAct : List String → Option Act
   | ["start", g] => g.toNat?.map .start
@@ -505,8 +512,20 @@ def parseOp (hint : List Gen) : List String → Option Op
   | ["kill", g] => g.toNat?.map .kill
   | ["state", g] => g.toNat?.map .state
   | ["value", g] => g.toNat?.map .value
-  | ["process", dt] => dt.toInt?.map (.process · hint)
+  | ["process", dt] => (num? dt).map (.process · hint)
   | _ => none
+
+/-- operations of the scenario text.  Besides the operations of one processor (`Op`): a world that
+holds the processor — `dstart g` starts `g` through the `@desper.coroutine` decorator, i.e. on the
+world's *current* CoroutineProcessor (AssertionError when it has none), `replace` puts a fresh
+CoroutineProcessor in its place (`world.add_processor(CoroutineProcessor())`: a new, empty
+processor state; the generator objects keep their own progress), `remove` takes it away. -/
+inductive POp where
+  | core (op : Op)
+  | dstart (g : Gen)
+  | replace
+  | remove
+deriving Repr, Inhabited
 
 structure Parsed where
   scripts : List Script := []
@@ -527,20 +546,28 @@ def parseLine (p : Parsed) (line : String) : Parsed :=
     | some h => { p with hints := p.hints ++ [h] }
     | none => { p with bad := true }
   | "op" :: rest => { p with ops := rest :: p.ops }
+  | ["world"] => p                                   -- the processor lives in a World (harness side)
   | [] => p
   | _ => { p with bad := true }
 
+def parsePOp (hint : List Gen) : List String → Option POp
+  | ["dstart", g] => g.toNat?.map .dstart
+  | ["dstart0", g] => g.toNat?.map .dstart
+  | ["replace"] => some .replace
+  | ["remove"] => some .remove
+  | toks => (parseOp hint toks).map .core
+
 /-- attach the k-th hint to the k-th process op -/
-def buildOps : List (List String) → List (List Gen) → Option (List Op)
+def buildOps : List (List String) → List (List Gen) → Option (List POp)
   | [], _ => some []
   | toks :: rest, hints =>
     match toks with
     | ["process", _] =>
-      match parseOp (hints.headD []) toks, buildOps rest hints.tail with
+      match parsePOp (hints.headD []) toks, buildOps rest hints.tail with
       | some op, some ops => some (op :: ops)
       | _, _ => none
     | _ =>
-      match parseOp [] toks, buildOps rest hints with
+      match parsePOp [] toks, buildOps rest hints with
       | some op, some ops => some (op :: ops)
       | _, _ => none
 
@@ -589,7 +616,28 @@ def retained (n : Nat) (s : St) : List Gen :=
     (s.gens g).isSome || s.active.contains (some g) || s.waiting.any (fun r => r.gen = some g)
       || s.kill g || (s.promises g).isSome
 
-def runScenario (lines : List String) : List String :=
+/-- a fresh CoroutineProcessor: empty tables; generator objects, promises handed out so far and
+the log are the program's, not the processor's -/
+def freshProcessor (s : St) : St :=
+  { s with gens := init.gens, active := init.active, waiting := init.waiting, kill := init.kill,
+           promises := init.promises, timer := init.timer }
+
+/-- one scenario operation; `hasProc`: the world currently has a CoroutineProcessor -/
+def execPOp (U : Universe) (s : St) (hasProc : Bool) : POp → St × Bool
+  | .core op =>
+    if hasProc then (execOp U s op, true)
+    else match op with
+      | .process _ _ => (s.push (.res .ok), false)   -- world.process(): no coroutine processor to run
+      | .value _ => (execOp U s op, false)
+      | _ => (s.push (.res (.raised "AttributeError")), false)
+  | .dstart g =>
+    if hasProc then (execOp U s (.start g), true)
+    else (s.push (.res (.raised "AssertionError")), false)   -- coroutines.py:313-314
+  | .replace => ((freshProcessor s).push (.res .ok), true)
+  | .remove => ((freshProcessor s).push (.res .ok), false)
+
+/-- one processor (one world) -/
+def runOne (lines : List String) : List String :=
   let p := lines.foldl parseLine {}
   if p.bad then ["bad-op"] else
   match buildOps p.ops.reverse p.hints with
@@ -597,7 +645,33 @@ def runScenario (lines : List String) : List String :=
   | some ops =>
     let U := p.universe
     let n := p.scripts.length
-    let s := ops.foldl (fun s op => let s' := execOp U s op; s'.push (.states (statesOf U n s'))) init
-    s.log.reverse.filterMap showEntry ++ [s!"retained {showNats (retained n s)}"]
+    let r := ops.foldl (fun (sp : St × Bool) op =>
+      let (s', hp) := execPOp U sp.1 sp.2 op
+      (s'.push (.states (if hp then statesOf U n s' else (List.range n).map fun _ => .terminated)), hp))
+      (init, true)
+    r.1.log.reverse.filterMap showEntry ++
+      [s!"retained {showNats (if r.2 then retained n r.1 else [])}"]
+
+/-- the instance a scenario line belongs to (`@k ...`; none: instance 0) and the line without the mark -/
+def instanceOf (line : String) : Nat × String :=
+  match tokens line with
+  | t :: rest =>
+    if t.startsWith "@" then
+      match (t.drop 1).toString.toNat? with
+      | some k => (k, " ".intercalate rest)
+      | none => (0, line)
+    else (0, line)
+  | [] => (0, line)
+
+/-- Several CoroutineProcessor instances in one program are several independent model states: the
+lines marked `@k` are the scenario of instance `k`; every instance is run on its own and its
+observations are given back marked in the same way (instance 0 unmarked).  Whatever one instance
+does is invisible to the others. -/
+def runScenario (lines : List String) : List String :=
+  let marked := lines.map instanceOf
+  let ids := marked.foldl (fun acc m => if acc.contains m.1 then acc else acc ++ [m.1]) [0]
+  ids.flatMap fun k =>
+    let out := runOne ((marked.filter (·.1 = k)).map (·.2))
+    if k = 0 then out else out.map fun o => s!"@{k} {o}"
 
 end Desper.Coro
